@@ -12,7 +12,7 @@ BOUNDS = {
              "8-triangle annulus and 10-triangle folded dumbbell: subsets of size <= 2; 3x3 torus (18 triangles): subsets of size <= 1; symbolic transposition of labels; singular set given as list, set or one-shot iterator; with and without an earlier cut of the same mesh object",
     "thorough": "annulus: every subset; torus: subsets of size <= 3",
 }
-OUTSIDE = ("feature constraints other than the sharp edges of a cube; symbolic edge lengths (orderings of sums of radicals explode): coordinates are concrete and generic; surfaces of higher "
+OUTSIDE = ("feature constraints other than the sharp edges of a cube and of an open box; symbolic edge lengths (orderings of sums of radicals explode): coordinates are concrete and generic; surfaces of higher "
            "genus or more border loops")
 ASSUMPTIONS = ["input is a connected orientable triangulated manifold surface", "coordinates are fixed generic reals"]
 STUBS = []
@@ -45,12 +45,15 @@ BASES = {
     # is folded back over the first one, so the two interior vertices are close in space but far apart along the surface and
     # every path between them runs through border vertices
     "dumbbell": (10, [(0, 1, 2), (0, 2, 3), (0, 3, 4), (0, 4, 1), (5, 7, 6), (5, 8, 7), (5, 9, 8), (5, 6, 9), (2, 1, 6), (2, 6, 7)]),
+    # the cube without its top: an open surface whose sharp creases run from border to border
+    "openbox": (8, [(0, 2, 1), (0, 3, 2), (0, 1, 5), (0, 5, 4), (1, 2, 6), (1, 6, 5), (2, 3, 7), (2, 7, 6), (3, 0, 4), (3, 4, 7)]),
     "cube": (8, [(0, 2, 1), (0, 3, 2), (0, 1, 5), (0, 5, 4), (1, 2, 6), (1, 6, 5), (2, 3, 7), (2, 7, 6), (3, 0, 4), (3, 4, 7), (4, 5, 6), (4, 6, 7)]),
 }
 COORDS = {
     "dumbbell": [(-0.5, 0, 0), (1, -1, 0), (1, 1.1, 0), (-1, 1, 0), (-1.1, -1, 0),
                  (-0.45, 0.05, 0.3), (1.1, -1, 0.3), (1, 1, 0.3), (-1, 1.05, 0.3), (-1, -1.1, 0.3)],
     "cube": [(-0.5, -0.5, -0.5), (0.5, -0.5, -0.5), (0.5, 0.5, -0.5), (-0.5, 0.5, -0.5), (-0.5, -0.5, 0.5), (0.5, -0.5, 0.5), (0.5, 0.5, 0.5), (-0.5, 0.5, 0.5)],
+    "openbox": [(-0.5, -0.5, -0.5), (0.5, -0.5, -0.5), (0.5, 0.5, -0.5), (-0.5, 0.5, -0.5), (-0.5, -0.5, 0.5), (0.5, -0.5, 0.5), (0.5, 0.5, 0.5), (-0.5, 0.5, 0.5)],
     "octahedron": [(0, 0, 1.1), (1, 0.1, 0), (0.05, 1.2, 0), (-1.1, 0, 0.1), (0, -0.9, 0.05), (0.1, 0, -1.3)],
     "annulus": [(2, 0, 0), (0, 2.1, 0), (-2.2, 0, 0.1), (0, -1.9, 0), (1, 0.1, 0.2), (0.1, 1.05, 0.1), (-0.9, 0, 0), (0, -1.1, 0.15)],
 }
@@ -157,6 +160,8 @@ def obligations(tier):
         obs.append(Ob("cut-" + n, cut(n), covers=COVERS, split=6, note="every singular subset on " + n))
     obs.append(Ob("cut-cube-features", cut("cube", 2 if q else 3, interior_features=True), covers=COVERS, split=8,
                   note="cube with its 12 sharp edges detected as features (feature-aware code path)"))
+    obs.append(Ob("cut-openbox-features", cut("openbox", 2 if q else 3, interior_features=True), covers=COVERS, split=8,
+                  note="open box with its sharp edges as features: creases running from border to border"))
     obs.append(Ob("cut-dumbbell", cut("dumbbell", 2), covers=COVERS, split=8,
                   note="two folded fans joined by a bridge: straight-line and along-the-surface distances rank the singularities differently"))
     obs.append(Ob("cut-annulus", cut("annulus", 2 if q else None), covers=COVERS, split=8, note="annulus"))
